@@ -2,6 +2,7 @@
 package c15
 
 import (
+	"bytes"
 	"fmt"
 	"io"
 	"net/http"
@@ -19,8 +20,13 @@ func TestMain(m *testing.M) { vstat.Main(m) }
 type Req struct {
 	Method  string      `json:"method"`
 	Path    string      `json:"path"`
-	UA      []string    `json:"ua"`      // User-Agent field lines, in order (nil: header absent)
-	Headers [][2]string `json:"headers"` // other headers
+	UA      []string    `json:"ua"`            // User-Agent field lines, in order (nil: header absent)
+	Headers [][2]string `json:"headers"`       // other headers
+	Pre     [][2]string `json:"pre,omitempty"` // fields sent ahead of the User-Agent lines
+	// request body (a probe is a probe whatever else the request carries)
+	Body          int  `json:"body,omitempty"`
+	Chunked       bool `json:"chunked,omitempty"`
+	DeclareLength bool `json:"declare_length,omitempty"`
 }
 
 type Script struct {
@@ -74,7 +80,7 @@ func gen(t *rapid.T) Script {
 	s.Probe = rapid.IntRange(0, 3).Draw(t, "probe") != 0
 	n := rapid.IntRange(1, 4).Draw(t, "n")
 	for i := 0; i < n; i++ {
-		r := Req{Method: rapid.SampledFrom([]string{"GET", "HEAD", "POST", "OPTIONS", "DELETE"}).Draw(t, "m"), Path: rapid.SampledFrom([]string{"/", "/healthz", "/kube-probe/", "/a?ua=kube-probe/1"}).Draw(t, "p") + fmt.Sprintf("#%d", i)}
+		r := Req{Method: rapid.SampledFrom([]string{"GET", "HEAD", "POST", "OPTIONS", "DELETE", "PUT"}).Draw(t, "m"), Path: rapid.SampledFrom([]string{"/", "/healthz", "/kube-probe/", "/a?ua=kube-probe/1"}).Draw(t, "p") + fmt.Sprintf("#%d", i)}
 		r.Path = strings.Replace(r.Path, "#", "?i=", 1)
 		if strings.Count(r.Path, "?") > 1 {
 			r.Path = strings.Replace(r.Path, "?i=", "&i=", 1)
@@ -88,6 +94,25 @@ func gen(t *rapid.T) Script {
 		}
 		if rapid.IntRange(0, 2).Draw(t, "other") == 0 {
 			r.Headers = append(r.Headers, [2]string{rapid.SampledFrom([]string{"X-User-Agent", "Referer", "X-Probe", "User-Agent-Hint"}).Draw(t, "on"), "kube-probe/1.26"})
+		}
+		if rapid.IntRange(0, 2).Draw(t, "repeat") == 0 {
+			// a field name that occurs twice with the User-Agent in between; the values look like user agents
+			name := rapid.SampledFrom([]string{"X-Seen-Agent", "Accept", "Via", "X-Trace"}).Draw(t, "rname")
+			v1 := rapid.SampledFrom([]string{"wget/1.21", "kube-probe/1.20", "curl/8"}).Draw(t, "rv1")
+			v2 := rapid.SampledFrom([]string{"kube-probe/1.29", "curl/8.5.0", "wget/1.21"}).Draw(t, "rv2")
+			r.Pre = append(r.Pre, [2]string{name, v1})
+			if rapid.Bool().Draw(t, "between") {
+				r.Headers = append(r.Headers, [2]string{"X-Between", "1"})
+			}
+			r.Headers = append(r.Headers, [2]string{name, v2})
+			if rapid.Bool().Draw(t, "third") {
+				r.Headers = append(r.Headers, [2]string{name, "kube-probe/third"})
+			}
+		}
+		if r.Method != "HEAD" && rapid.IntRange(0, 2).Draw(t, "body") == 0 {
+			r.Body = rapid.SampledFrom([]int{1, 100, 5000}).Draw(t, "bodylen")
+			r.Chunked = rapid.Bool().Draw(t, "chunked")
+			r.DeclareLength = rapid.Bool().Draw(t, "declare")
 		}
 		s.Reqs = append(s.Reqs, r)
 	}
@@ -126,7 +151,11 @@ func exec(t *testing.T, s Script) *vstat.Violation {
 			cc.H2.NeverIndex = map[string]bool{"user-agent": true}
 		}
 		for _, r := range s.Reqs {
-			rs := rig.ReqSpec{Method: r.Method, Path: r.Path, Authority: "example.com"}
+			rs := rig.ReqSpec{Method: r.Method, Path: r.Path, Authority: "example.com", Chunked: r.Chunked, DeclareLength: r.DeclareLength}
+			if r.Body > 0 {
+				rs.Body = bytes.Repeat([]byte{'b'}, r.Body)
+			}
+			rs.Headers = append(rs.Headers, r.Pre...)
 			for _, u := range r.UA {
 				rs.Headers = append(rs.Headers, [2]string{"User-Agent", u})
 			}
@@ -164,6 +193,12 @@ func exec(t *testing.T, s Script) *vstat.Violation {
 		}
 		if len(r.UA) > 1 {
 			uaClass += "+2-lines"
+		}
+		if r.Body > 0 {
+			cl = append(cl, "request-with-body:"+uaClass)
+		}
+		if len(r.Pre) > 0 {
+			cl = append(cl, "field-name-repeated-around-user-agent")
 		}
 		cl = append(cl, uaClass)
 		if !s.Probe && uaClass == "ua-probe-prefix" {
@@ -218,6 +253,6 @@ func dedup(in []string) []string {
 
 func TestProbe(t *testing.T) {
 	rig.Certs()
-	col.Mandatory("proto:h2", "proto:http/1.1", "probe-support:true", "probe-support:false", "ua-absent", "ua-probe-prefix", "ua-contains-literal-elsewhere", "ua-other", "ua-lines-disagree", "user-agent-sent-as-never-indexed-literal")
+	col.Mandatory("proto:h2", "proto:http/1.1", "probe-support:true", "probe-support:false", "ua-absent", "ua-probe-prefix", "ua-contains-literal-elsewhere", "ua-other", "ua-lines-disagree", "user-agent-sent-as-never-indexed-literal", "request-with-body:ua-probe-prefix", "field-name-repeated-around-user-agent")
 	vstat.Run(t, vstat.Spec[Script]{Col: col, Quick: 2500, Thorough: 60000, Gen: gen, Exec: func(s Script) *vstat.Violation { return exec(t, s) }})
 }
